@@ -208,6 +208,12 @@ func runC06(r *Run) {
 	for d := range drivers {
 		d.Close()
 	}
+	// the layers below the flat reader model: PEM armour / base64 stream (Crv.Pem) and bufio over a chunked source with
+	// the repo's read loops (Crv.Chunk); both are compared line by line with the Lean driver
+	r.rule += "; PEM stream: valid and malformed armour/base64 texts through the real PemReader + base64 decoder + bufio vs Crv.Pem; " +
+		"chunk stream: ReadExpectedBytes/PeekExpectedBytes/Discard over scripted chunkings and buffer sizes vs Crv.Chunk and vs a single-chunk reference run"
+	c06PemStream(r)
+	c06ChunkStream(r)
 }
 
 func c06One(r *Run, d *Driver, dir string, idx int, c c06Case) {
